@@ -551,9 +551,11 @@ class Impl:
             return None
         try:
             if len(G._node) > 30 or len(G.snapshots) > 60:      # large graphs: sizes and sums only
-                return (len(G._node), len(G.snapshots), sum(G.snapshots.values()), len(G.time_to_edge),
-                        sum(len(nb) for nb in G._adj.values()))
-            return repr((G._node, G._adj, G.snapshots, G.time_to_edge))
+                return (len(G._node), len(G.snapshots), sum(G.snapshots.values()),
+                        sum(len(b) for b in G.time_to_edge.values()), sum(len(nb) for nb in G._adj.values()))
+            # only what can be observed: an empty bucket left in time_to_edge, say, is not a change
+            return repr((G._node, G._adj, sorted(G.snapshots.items()),
+                         sorted((t, list(b)) for t, b in G.time_to_edge.items() if len(b) > 0)))
         except Exception as x:
             return 'unprintable: %r' % (x,)
 
